@@ -955,30 +955,28 @@ Qed.
 
 (* ================================================================ Dataset::validate on well formed manifests *)
 Lemma validate_field_ids_ok : forall fields seen,
-  NoDup fields -> (forall x, In x fields -> (0 <= x)%Z /\ ~ In x seen) ->
-  exists seen', validate_field_ids fields seen = Some seen' /\ (forall x, In x seen' <-> In x fields \/ In x seen).
+  NoDup (filter (fun x => negb (x =? TOMBSTONE)%Z) fields) ->
+  (forall x, In x (filter (fun x => negb (x =? TOMBSTONE)%Z) fields) -> (0 <= x)%Z /\ ~ In x seen) ->
+  exists seen', validate_field_ids fields seen = Some seen'
+     /\ (forall x, In x seen' <-> In x (filter (fun x => negb (x =? TOMBSTONE)%Z) fields) \/ In x seen).
 Proof.
-  induction fields as [|x r IH]; intros seen ND H; [exists seen; split; [reflexivity | intro; cbn [In]; tauto]|].
-  cbn [validate_field_ids]. destruct (H x (or_introl eq_refl)) as [P Q].
+  induction fields as [|x r IH]; intros seen ND H; [exists seen; split; [reflexivity | intro; cbn [In filter]; tauto]|].
+  cbn [validate_field_ids filter] in *. destruct (x =? TOMBSTONE)%Z; cbn [negb] in *; [apply IH; assumption|].
+  destruct (H x (or_introl eq_refl)) as [P Q].
   replace (x <=? -1)%Z with false by (symmetry; apply Z.leb_gt; lia). rewrite (proj2 (z_mem_false x seen) Q).
   inversion ND; subst. destruct (IH (x :: seen) H3) as [seen' [E M]].
   - intros y I. split; [apply H; right; exact I | intros [Ey|J]; [subst; contradiction | exact (proj2 (H y (or_intror I)) J)]].
   - exists seen'. split; [exact E|]. intro y. rewrite M. cbn [In]. intuition congruence.
 Qed.
 Lemma validate_files_ok : forall files seen,
-  (forall d, In d files -> z_mem TOMBSTONE (df_fields d) = false) ->
   NoDup (live_of files) -> forallb (fun x => (0 <=? x)%Z) (live_of files) = true ->
   (forall x, In x (live_of files) -> ~ In x seen) -> validate_files files seen = true.
 Proof.
-  induction files as [|d r IH]; intros seen NT ND POS DJ; [reflexivity|]. cbn [validate_files].
-  rewrite live_of_cons in *. assert (T : z_mem TOMBSTONE (df_fields d) = false) by (apply NT; left; reflexivity).
-  assert (L : filter (fun x => negb (x =? TOMBSTONE)%Z) (df_fields d) = df_fields d).
-  { apply filter_all_true. apply forallb_forall. intros x I. apply negb_true_iff. apply Z.eqb_neq. intro E. subst x.
-    apply z_mem_false in T. contradiction. }
-  rewrite L in *. rewrite forallb_app in POS. apply andb_true_iff in POS as [P1 P2].
+  induction files as [|d r IH]; intros seen ND POS DJ; [reflexivity|]. cbn [validate_files].
+  rewrite live_of_cons in *. rewrite forallb_app in POS. apply andb_true_iff in POS as [P1 P2].
   destruct (validate_field_ids_ok (df_fields d) seen (NoDup_app_l _ _ ND)) as [seen' [E M]].
   - intros x I. split; [apply Z.leb_le; exact (forallb_In _ _ _ P1 I) | apply DJ; apply in_or_app; left; exact I].
-  - rewrite E. apply IH; [intros d' I; apply NT; right; exact I | eapply NoDup_app_r; exact ND | exact P2 |].
+  - rewrite E. apply IH; [eapply NoDup_app_r; exact ND | exact P2 |].
     intros x I J. apply M in J as [J|J]; [exact (NoDup_app_disj _ _ x ND J I) | apply (DJ x); [apply in_or_app; right; exact I | exact J]].
 Qed.
 
@@ -988,54 +986,49 @@ Proof.
   intro H. apply andb_true_iff in H as [L H]. apply N.ltb_lt in L. apply andb_true_iff. split; [apply N.leb_le; lia | apply IH; exact H].
 Qed.
 
-(* The manifest-only part of Dataset::validate plus the storage facts, outside the known finding class.
+(* The manifest-only part of Dataset::validate plus the storage facts (tombstoned fields are accepted since
+   repo commit 77d5a8a).
    _partial: four conditions of validate are hypotheses here because build_manifest does not maintain them as
    invariants: every fragment has a data file and every data file keeps a field of the schema (true after
    drop_columns = Project, not after a Merge that drops columns), no fragment mixes legacy and non-legacy
    files, index ids are unique and the bitmaps of equally named indices are disjoint. *)
 Theorem validate_dataset_ok_partial m :
   wf_manifest m = true ->
-  Known_C05_validate_rejects_tombstoned_field m = false ->
   forallb (fun f => negb (match fr_files f with [] => true | _ => false end)
                     && forallb (fun d => existsb (fun x => z_mem x (m_schema m)) (df_fields d)) (fr_files f)
                     && Bool.eqb (existsb is_legacy_file (fr_files f)) (forallb is_legacy_file (fr_files f))) (m_fragments m) = true ->
   nodup_n (map ix_uuid (m_indices m)) && indices_disjoint (m_indices m) = true ->
   validate_dataset m = true.
 Proof.
-  intros W K HF HI. unfold validate_dataset.
+  intros W HF HI. unfold validate_dataset.
   destruct (wf_facts _ m W eq_refl) as [_ [C [ND _]]].
   unfold wf_manifest in W. rewrite !andb_true_iff in W. destruct W as [[[[_ B] S] _] _].
   rewrite (proj2 (nodup_n_NoDup _) ND), (strict_sorted_sorted _ S). cbn [andb]. rewrite <- andb_assoc, HI, andb_true_r.
   apply forallb_forall. intros f I.
   pose proof (forallb_In _ _ _ C I) as Cf. pose proof (forallb_In _ _ _ HF I) as Hf.
   apply andb_true_iff in Hf as [Hf H2]. apply andb_true_iff in Hf as [H0 H1].
-  assert (NT : has_tombstone f = false).
-  { unfold Known_C05_validate_rejects_tombstoned_field in K. destruct (has_tombstone f) eqn:T; [|reflexivity].
-    assert (existsb has_tombstone (m_fragments m) = true) by (apply existsb_exists; exists f; split; assumption). congruence. }
   destruct (frag_consistent_phys _ _ Cf) as [p Ep]. destruct (frag_consistent_files _ _ _ Cf Ep) as [R [NDf POS]].
   unfold validate_fragment. rewrite H1, H2, Ep.
-  rewrite (validate_files_ok (fr_files f) []); [| | exact NDf | exact POS | intros x _ []].
-  - cbn [andb].
-    assert (EXP : match fr_files f with d :: _ => df_rows d | [] => 0 end = p).
-    { destruct (fr_files f) as [|d r]; [discriminate|]. cbn [forallb] in R. apply andb_true_iff in R as [R _]. apply N.eqb_eq. exact R. }
-    apply frag_consistent_iff in Cf as [Bf _].
-    unfold base_ok in Bf. rewrite Ep in Bf. rewrite !andb_true_iff in Bf. destruct Bf as [[[_ _] _] DL].
-    rewrite EXP, R, N.eqb_refl. cbn [andb]. unfold deletion_ok in DL. destruct (fr_deletion f) as [d|]; [|reflexivity].
-    rewrite !andb_true_iff in DL. destruct DL as [[D1 _] D3]. rewrite D1, andb_true_r. exact D3.
-  - intros d Id. unfold has_tombstone in NT. destruct (z_mem TOMBSTONE (df_fields d)) eqn:T; [|reflexivity].
-    assert (existsb (fun d => z_mem TOMBSTONE (df_fields d)) (fr_files f) = true) by (apply existsb_exists; exists d; split; assumption). congruence.
+  rewrite (validate_files_ok (fr_files f) [] NDf POS); [|intros x _ []].
+  cbn [andb].
+  assert (EXP : match fr_files f with d :: _ => df_rows d | [] => 0 end = p).
+  { destruct (fr_files f) as [|d r]; [discriminate|]. cbn [forallb] in R. apply andb_true_iff in R as [R _]. apply N.eqb_eq. exact R. }
+  apply frag_consistent_iff in Cf as [Bf _].
+  unfold base_ok in Bf. rewrite Ep in Bf. rewrite !andb_true_iff in Bf. destruct Bf as [[[_ _] _] DL].
+  rewrite EXP, R, N.eqb_refl. cbn [andb]. unfold deletion_ok in DL. destruct (fr_deletion f) as [d|]; [|reflexivity].
+  rewrite !andb_true_iff in DL. destruct DL as [[D1 _] D3]. rewrite D1, andb_true_r. exact D3.
 Qed.
 
-(* ================================================================ the two known findings, on the model *)
-(* validate_rejects_tombstoned_field: a well formed manifest (one fragment whose file still lists the
-   tombstone next to two live fields, the rewritten column in a second file) that validate_dataset rejects *)
+(* ================================================================ findings, on the model *)
+(* regression (former finding validate_rejects_tombstoned_field, repaired by repo commit 77d5a8a): a well formed
+   manifest whose file still lists the tombstone next to two live fields, the rewritten column in a second file *)
 Definition tombstone_witness : Manifest :=
   mkManifest 2 [0%Z; 1%Z; 2%Z]
     [mkFragment 0 (Some 3) [mkDataFile 0 [0%Z; (-2)%Z; 2%Z] (2, 0) 3; mkDataFile 1 [1%Z] (2, 0) 3] None None None None]
     (Some 0) None V2_0 [].
-Lemma validate_rejects_tombstoned_field_refuted :
-  exists m, wf_manifest m = true /\ Known_C05_validate_rejects_tombstoned_field m = true /\ validate_dataset m = false.
-Proof. exists tombstone_witness. vm_compute. repeat split; reflexivity. Qed.
+Lemma tombstone_witness_validates :
+  wf_manifest tombstone_witness = true /\ existsb has_tombstone (m_fragments tombstone_witness) = true /\ validate_dataset tombstone_witness = true.
+Proof. vm_compute. repeat split; reflexivity. Qed.
 
 (* stable_rowids_deferred_remap_unassigned_fragment_ids: the index bitmap recomputed by the Rewrite arm names
    fragment 0 although the new fragment gets id 4 *)
